@@ -7,9 +7,15 @@ Open Scope string_scope. Open Scope list_scope. Open Scope Z_scope.
 (* ------------------------------------------------------------------ what a field refers to *)
 Definition kind_struct_in (names : list string) (p : pfield) : Prop := pf_kind p = FStruct -> In (pf_ty p) names.
 Definition kind_msg_in (names : list string) (p : pfield) : Prop := pf_kind p = FMsg -> In (pf_ty p) names.
-Definition kind_alias_in (names : list string) (p : pfield) : Prop := (exists t, pf_kind p = FAlias t) -> In (pf_ty p) names.
+Definition kind_alias_in (al : list palias) (p : pfield) : Prop :=
+  forall t, pf_kind p = FAlias t -> exists a, find_alias (pf_ty p) al = Some a /\ pa_target a = t.
+Definition aext (al al' : list palias) : Prop := forall n a, find_alias n al = Some a -> find_alias n al' = Some a.
+Lemma aext_refl al : aext al al.
+Proof. intros n a H. exact H. Qed.
+Lemma aext_app al x : aext al (al ++ x).
+Proof. intros n a H. apply find_alias_app_some. exact H. Qed.
 Definition kind_nat_ok (p : pfield) : Prop := pf_kind p = FNat -> exists v, tlookup (pf_ty p) parser_types = Some v.
-Definition fin (an sn mn : list string) (p : pfield) : Prop :=
+Definition fin (an : list palias) (sn mn : list string) (p : pfield) : Prop :=
   kind_struct_in sn p /\ kind_msg_in mn p /\ kind_alias_in an p /\ kind_nat_ok p.
 
 Definition prefix_ok (R : list pdef -> pdef -> Prop) (ds : list pdef) : Prop :=
@@ -45,23 +51,23 @@ Definition nonsig (d : pdef) : bool := negb (is_signal d).
 Definition mnames (ms : list pdef) : list string := names (filter nonsig ms).
 
 Record InvS (al : list palias) (ss ms : list pdef) : Prop := {
-  inv_all : Forall (fun d => Forall (fin (anames al) (names ss) (mnames ms)) (pd_fields d)) (ss ++ ms);
+  inv_all : Forall (fun d => Forall (fin al (names ss) (mnames ms)) (pd_fields d)) (ss ++ ms);
   inv_ss : prefix_ok (fun earlier d => Forall (kind_struct_in (names earlier)) (pd_fields d)) ss;
   inv_mm : prefix_ok (fun earlier d => Forall (kind_msg_in (mnames earlier)) (pd_fields d)) ms }.
 Definition InvSt (st : pstate) : Prop := InvS (ps_aliases st) (ps_structs st) (ps_msgs st).
 
 Lemma fin_mono an sn mn an' sn' mn' p :
-  incl an an' -> incl sn sn' -> incl mn mn' -> fin an sn mn p -> fin an' sn' mn' p.
+  aext an an' -> incl sn sn' -> incl mn mn' -> fin an sn mn p -> fin an' sn' mn' p.
 Proof.
   intros Ha Hs Hm (H1 & H2 & H3 & H4). split; [|split; [|split]].
   - intro H. apply Hs, H1. exact H.
   - intro H. apply Hm, H2. exact H.
-  - intro H. apply Ha, H3. exact H.
+  - intros t H. destruct (H3 t H) as (a & E & T). exists a. split; auto.
   - exact H4.
 Qed.
 
 Lemma all_mono an sn mn an' sn' mn' (ds : list pdef) :
-  incl an an' -> incl sn sn' -> incl mn mn' ->
+  aext an an' -> incl sn sn' -> incl mn mn' ->
   Forall (fun d => Forall (fin an sn mn) (pd_fields d)) ds -> Forall (fun d => Forall (fin an' sn' mn') (pd_fields d)) ds.
 Proof.
   intros Ha Hs Hm H. eapply Forall_impl; [|exact H]. intros d Hd.
@@ -94,15 +100,15 @@ Lemma mnames_incl ms : incl (mnames ms) (names ms).
 Proof. unfold mnames, names. intros n H. apply in_map_iff in H. destruct H as (d & E & H). apply filter_In in H. apply in_map_iff. exists d. tauto. Qed.
 
 Ltac fin_cases := unfold fin, kind_struct_in, kind_msg_in, kind_alias_in, kind_nat_ok; simpl;
-  split; [|split; [|split]]; (let G := fresh "G" in intro G; try discriminate; try (destruct G; discriminate)).
+  split; [|split; [|split]]; (let G := fresh "G" in intro G; try discriminate; try (intro; discriminate)).
 
 Lemma resolve_ftype_fin al ss ms t k sz a nm ln o :
-  resolve_ftype al ss ms t = POk (k, sz, a) -> fin (anames al) (names ss) (mnames ms) (mkPF nm t k ln sz a o).
+  resolve_ftype al ss ms t = POk (k, sz, a) -> fin al (names ss) (mnames ms) (mkPF nm t k ln sz a o).
 Proof.
   unfold resolve_ftype. destruct (tlookup t parser_types) as [[s0 kd]|] eqn:Et.
   - intros H; inversion H; subst. fin_cases. eauto.
   - destruct (find_alias t al) as [a0|] eqn:Ea.
-    + intros H; inversion H; subst. fin_cases. eapply find_alias_in; eauto.
+    + intros H; inversion H; subst. fin_cases. intros E; inversion E; subst. eauto.
     + destruct (find_def t ss) as [s|] eqn:Es.
       * intros H; inversion H; subst. fin_cases. eapply find_def_in; eauto.
       * destruct (find_def t ms) as [m|] eqn:Em; [|discriminate].
@@ -112,7 +118,7 @@ Proof.
 Qed.
 
 Lemma resolve_fields_fin cs al ss ms l ps :
-  resolve_fields cs al ss ms l = POk ps -> Forall (fin (anames al) (names ss) (mnames ms)) ps.
+  resolve_fields cs al ss ms l = POk ps -> Forall (fin al (names ss) (mnames ms)) ps.
 Proof.
   revert ps. induction l as [|d r IH]; simpl; intros ps H; [inversion H; constructor|].
   destruct (resolve_field cs al ss ms d) as [p|k|k] eqn:E; try discriminate.
@@ -121,7 +127,8 @@ Proof.
   unfold resolve_field in E. destruct (existsb (String.eqb (fd_name d)) reserved_field_names); [discriminate|].
   destruct (resolve_ftype al ss ms (fd_type d)) as [[[k sz] a]|k|k] eqn:Et; try discriminate.
   destruct (fd_len d) as [e|].
-  - destruct (ceval cs e); [|discriminate]. inversion E; subst. eapply resolve_ftype_fin; eauto.
+  - destruct (ceval cs e) as [v|]; [|discriminate]. destruct (v <? 1); [discriminate|].
+    inversion E; subst. eapply resolve_ftype_fin; eauto.
   - inversion E; subst. eapply resolve_ftype_fin; eauto.
 Qed.
 
@@ -140,14 +147,14 @@ Lemma finish_def_shape ap ps ps' sz a :
 Proof.
   unfold finish_def. destruct ps as [|p0 r]; [discriminate|].
   destruct (check_alignment ap (to_lfields 0 (p0 :: r))) as [[fs' a']|e]; [|destruct e; discriminate].
-  destruct (ct_fields 0 (rebuild (p0 :: r) fs' 0) false) as [cts|k|k]; try discriminate.
+  destruct (ct_fields 0 (rebuild (p0 :: r) fs' 0)) as [cts|k|k]; try discriminate.
   destruct (total_size fs' =? c_sizeof cts); [|discriminate].
   destruct (max_msg_size <? total_size fs'); [discriminate|].
   intros H; inversion H; subst. exists fs'. repeat split; auto. discriminate.
 Qed.
 
 Lemma fin_set_poff an sn mn p o : fin an sn mn p -> fin an sn mn (set_poff p o).
-Proof. intros (H1 & H2 & H3 & H4). split; [|split; [|split]]; intro G; simpl in *; auto. Qed.
+Proof. intros (H1 & H2 & H3 & H4). split; [|split; [|split]]; [exact H1|exact H2|exact H3|exact H4]. Qed.
 Lemma fin_pad an sn mn k l o : fin an sn mn (mkPF (pad_name k) "char" FNat l 1 1 o).
 Proof. fin_cases. eexists. vm_compute. reflexivity. Qed.
 
@@ -159,7 +166,7 @@ Proof. apply map_app. Qed.
 
 Lemma define_fin ap st b ps' sz a :
   InvSt st -> define ap st b = POk (ps', sz, a) ->
-  Forall (fin (anames (ps_aliases st)) (names (ps_structs st)) (mnames (ps_msgs st))) ps'.
+  Forall (fin (ps_aliases st) (names (ps_structs st)) (mnames (ps_msgs st))) ps'.
 Proof.
   intros [Hall Hss Hmm] H. unfold define in H.
   destruct (resolve_body (ps_consts st) (ps_aliases st) (ps_structs st) (ps_msgs st) b) as [ps|k|k] eqn:Eb; try discriminate.
@@ -186,7 +193,7 @@ Proof.
   - inversion Hc; subst. exact Hi.
   - destruct (resolve_alias (ps_aliases st) (ps_structs st) t) as [[[tg sz] a]|]; inversion Hc; subst.
     destruct Hi as [Hall Hss Hmm]. constructor; simpl; auto.
-    eapply all_mono; [| | |exact Hall]; unfold anames; try rewrite map_app; auto using incl_refl, incl_appl.
+    eapply all_mono; [| | |exact Hall]; auto using incl_refl, incl_appl, aext_refl, aext_app.
   - inversion Hc; subst. exact Hi.
   - inversion Hc; subst. exact Hi.
   - (* struct *)
@@ -195,9 +202,9 @@ Proof.
     unfold InvSt. simpl. constructor.
     + rewrite Forall_app in Hall. destruct Hall as [Ha1 Ha2].
       rewrite <- app_assoc. simpl. apply Forall_app. split; [|constructor].
-      * eapply all_mono; [| | |exact Ha1]; try rewrite names_app; try rewrite mnames_app; auto using incl_refl, incl_appl.
-      * simpl. eapply Forall_impl; [|exact Hf]. intros p. apply fin_mono; try rewrite names_app; try rewrite mnames_app; auto using incl_refl, incl_appl.
-      * eapply all_mono; [| | |exact Ha2]; try rewrite names_app; try rewrite mnames_app; auto using incl_refl, incl_appl.
+      * eapply all_mono; [| | |exact Ha1]; try rewrite names_app; try rewrite mnames_app; auto using incl_refl, incl_appl, aext_refl, aext_app.
+      * simpl. eapply Forall_impl; [|exact Hf]. intros p. apply fin_mono; try rewrite names_app; try rewrite mnames_app; auto using incl_refl, incl_appl, aext_refl, aext_app.
+      * eapply all_mono; [| | |exact Ha2]; try rewrite names_app; try rewrite mnames_app; auto using incl_refl, incl_appl, aext_refl, aext_app.
     + apply prefix_ok_snoc; auto. simpl. eapply Forall_impl; [|exact Hf]. intros p (H1 & _). exact H1.
     + exact Hmm.
   - (* message *)
@@ -206,25 +213,25 @@ Proof.
     unfold InvSt. simpl. constructor.
     + rewrite Forall_app in Hall. destruct Hall as [Ha1 Ha2].
       apply Forall_app. split; [|apply Forall_app; split; [|constructor; [|constructor]]].
-      * eapply all_mono; [| | |exact Ha1]; try rewrite names_app; try rewrite mnames_app; auto using incl_refl, incl_appl.
-      * eapply all_mono; [| | |exact Ha2]; try rewrite names_app; try rewrite mnames_app; auto using incl_refl, incl_appl.
-      * simpl. eapply Forall_impl; [|exact Hf]. intros p. apply fin_mono; try rewrite names_app; try rewrite mnames_app; auto using incl_refl, incl_appl.
+      * eapply all_mono; [| | |exact Ha1]; try rewrite names_app; try rewrite mnames_app; auto using incl_refl, incl_appl, aext_refl, aext_app.
+      * eapply all_mono; [| | |exact Ha2]; try rewrite names_app; try rewrite mnames_app; auto using incl_refl, incl_appl, aext_refl, aext_app.
+      * simpl. eapply Forall_impl; [|exact Hf]. intros p. apply fin_mono; try rewrite names_app; try rewrite mnames_app; auto using incl_refl, incl_appl, aext_refl, aext_app.
     + exact Hss.
     + apply prefix_ok_snoc; auto. simpl. eapply Forall_impl; [|exact Hf]. intros p (_ & H2 & _). exact H2.
   - (* signal *)
     inversion Hc; subst. clear Hc. destruct Hi as [Hall Hss Hmm]. unfold InvSt. simpl. constructor.
     + rewrite Forall_app in Hall. destruct Hall as [Ha1 Ha2].
       apply Forall_app. split; [|apply Forall_app; split; [|constructor; [constructor|constructor]]].
-      * eapply all_mono; [| | |exact Ha1]; try rewrite names_app; try rewrite mnames_app; auto using incl_refl, incl_appl.
-      * eapply all_mono; [| | |exact Ha2]; try rewrite names_app; try rewrite mnames_app; auto using incl_refl, incl_appl.
+      * eapply all_mono; [| | |exact Ha1]; try rewrite names_app; try rewrite mnames_app; auto using incl_refl, incl_appl, aext_refl, aext_app.
+      * eapply all_mono; [| | |exact Ha2]; try rewrite names_app; try rewrite mnames_app; auto using incl_refl, incl_appl, aext_refl, aext_app.
     + exact Hss.
     + apply prefix_ok_snoc; auto. simpl. constructor.
   - (* reserved block: signals *)
     inversion Hc; subst. clear Hc. destruct Hi as [Hall Hss Hmm]. unfold InvSt. simpl. constructor.
     + rewrite Forall_app in Hall. destruct Hall as [Ha1 Ha2].
       apply Forall_app. split; [|apply Forall_app; split].
-      * eapply all_mono; [| | |exact Ha1]; try rewrite names_app; try rewrite mnames_app; auto using incl_refl, incl_appl.
-      * eapply all_mono; [| | |exact Ha2]; try rewrite names_app; try rewrite mnames_app; auto using incl_refl, incl_appl.
+      * eapply all_mono; [| | |exact Ha1]; try rewrite names_app; try rewrite mnames_app; auto using incl_refl, incl_appl, aext_refl, aext_app.
+      * eapply all_mono; [| | |exact Ha2]; try rewrite names_app; try rewrite mnames_app; auto using incl_refl, incl_appl, aext_refl, aext_app.
       * apply Forall_forall. intros d Hd. apply in_map_iff in Hd. destruct Hd as (z & Ez & _). subst d. simpl. constructor.
     + exact Hss.
     + apply prefix_ok_app_signals; auto. intros e d Hd. apply in_map_iff in Hd. destruct Hd as (z & Ez & _). subst d. simpl. constructor.
@@ -506,7 +513,7 @@ Proof.
     unfold c_field_uses in Hev. unfold field_not_msg in F2.
     destruct (pf_kind p) as [|tg| |] eqn:K; simpl in Hev; try contradiction; try discriminate.
     - destruct Hev as [Hev|[]]. subst ev. exists NAlias, (pf_ty p). split; [reflexivity|]. left. apply A2.
-      exists (pf_ty p). split; [reflexivity|]. apply G3. eauto.
+      exists (pf_ty p). split; [reflexivity|]. destruct (G3 _ K) as (a0 & Fa & _). eapply find_alias_in; eauto.
     - destruct Hev as [Hev|[]]. subst ev. exists NStruct, (pf_ty p). split; [reflexivity|]. right. split; [reflexivity|]. apply G1. exact K. }
   destruct (scoped_section_after _ _ _ _ PS) as [S1 S2].
   rewrite scoped_app, S1. simpl.
@@ -521,7 +528,7 @@ Proof.
     unfold c_field_uses in Hev.
     destruct (pf_kind p) as [|tg| |] eqn:K; simpl in Hev; try contradiction.
     - destruct Hev as [Hev|[]]. subst ev. exists NAlias, (pf_ty p). split; [reflexivity|]. left. apply S2. left. apply A2.
-      exists (pf_ty p). split; [reflexivity|]. apply G3. eauto.
+      exists (pf_ty p). split; [reflexivity|]. destruct (G3 _ K) as (a0 & Fa & _). eapply find_alias_in; eauto.
     - destruct Hev as [Hev|[]]. subst ev. exists NStruct, (pf_ty p). split; [reflexivity|]. left. apply S2. right.
       exists (pf_ty p). split; [reflexivity|]. apply G2. exact K.
     - destruct Hev as [Hev|[]]. subst ev. exists NMsg, (pf_ty p). split; [reflexivity|]. right. split; [reflexivity|].
@@ -547,7 +554,7 @@ Proof.
     unfold c_field_uses in Hev. unfold field_not_msg in F2.
     destruct (pf_kind p) as [|tg| |] eqn:K; simpl in Hev; try contradiction; try discriminate.
     - destruct Hev as [Hev|[]]. subst ev. exists NAlias, (pf_ty p). split; [reflexivity|]. left. apply A2.
-      exists (pf_ty p). split; [reflexivity|]. apply G3. eauto.
+      exists (pf_ty p). split; [reflexivity|]. destruct (G3 _ K) as (a0 & Fa & _). eapply find_alias_in; eauto.
     - destruct Hev as [Hev|[]]. subst ev. exists NStruct, (pf_ty p). split; [reflexivity|]. right. split; [reflexivity|]. apply G1. exact K. }
   destruct (scoped_section_before _ _ _ _ PS) as [S1 S2].
   rewrite scoped_app, S1. simpl.
@@ -560,7 +567,7 @@ Proof.
     unfold c_field_uses in Hev.
     destruct (pf_kind p) as [|tg| |] eqn:K; simpl in Hev; try contradiction.
     - destruct Hev as [Hev|[]]. subst ev. exists NAlias, (pf_ty p). split; [reflexivity|]. left. apply S2. left. apply A2.
-      exists (pf_ty p). split; [reflexivity|]. apply G3. eauto.
+      exists (pf_ty p). split; [reflexivity|]. destruct (G3 _ K) as (a0 & Fa & _). eapply find_alias_in; eauto.
     - destruct Hev as [Hev|[]]. subst ev. exists NStruct, (pf_ty p). split; [reflexivity|]. left. apply S2. right.
       exists (pf_ty p). split; [reflexivity|]. apply G2. exact K.
     - destruct Hev as [Hev|[]]. subst ev. exists NMsg, (pf_ty p). split; [reflexivity|]. right. split; [reflexivity|].
